@@ -1117,8 +1117,15 @@ class Processor:
                         translated_path + "[{}]".format(intmin),
                         ancestry + [(data, intmin)], pathseg)
                 else:
+                    # Honor Python slice semantics:  negative bounds count from
+                    # the end and out-of-range bounds are clamped.
+                    datalen = len(data)
+                    minidx = intmin + datalen if intmin < 0 else intmin
+                    maxidx = intmax + datalen if intmax < 0 else intmax
                     sliced_elements = []
-                    for slice_index in range(intmin, intmax):
+                    for slice_index in range(
+                        max(minidx, 0), min(maxidx, datalen)
+                    ):
                         sliced_elements.append(NodeCoords(
                             data[slice_index], data, intmin,
                             translated_path + "[{}]".format(slice_index),
